@@ -43,11 +43,18 @@ func c17min(a, b int) int {
 type c17cfg struct {
 	rmu, noResp, keep bool
 	variant           int // 0 GET, 1 POST with body, 2 ordinary request pipelined in front, 3 read buffer just above the request size
+	// what an earlier, non-hijacking request on the same connection did: 0 no earlier request, 1 nothing special,
+	// 2 ctx.HijackSetNoResponse(true) without Hijack, 3 ctx.HijackSetNoResponse(false)
+	prior int
+	// the earlier request travels in its own write and is answered before the hijacking request is sent (otherwise
+	// both are pipelined in one write)
+	priorSep bool
 }
 
 type c17obs struct {
 	cfg       c17cfg
 	req       []byte // everything up to and including the hijacking request
+	priorReq  []byte // the earlier ordinary request on the same connection, if any
 	post      []byte // bytes sent after it
 	split     int    // post[:split] travels in the same write as the request
 	late      bool   // the writes after the first are held back until the hijack handler runs
@@ -177,18 +184,23 @@ func c17body(cfg c17cfg, lists [][]int) func() {
 		case 1:
 			o.req = []byte(c17hijackPOST)
 			o.nResp = 1
-		case 2:
-			o.req = []byte(c17plainGET + c17hijackGET)
-			o.nResp = 2
 		default:
 			o.req = []byte(c17hijackGET)
 			o.nResp = 1
+		}
+		if cfg.prior > 0 {
+			o.priorReq = []byte(fmt.Sprintf("GET %s HTTP/1.1\r\nHost: a\r\n\r\n", []string{"", "/plain", "/plain-noresponse-true", "/plain-noresponse-false"}[cfg.prior]))
+			o.nResp++
 		}
 		if cfg.noResp {
 			o.nResp--
 		}
 		// client writes: request+post[:split], then the remaining bytes cut at the original chunk boundaries
 		o.writes = [][]byte{append(append([]byte{}, o.req...), o.post[:o.split]...)}
+		if !cfg.priorSep {
+			o.writes[0] = append(append([]byte{}, o.priorReq...), o.writes[0]...)
+		}
+		o.req = append(append([]byte{}, o.priorReq...), o.req...)
 		off := 0
 		for _, ch := range chunks {
 			lo, hi := off, off+len(ch)
@@ -250,7 +262,14 @@ func c17body(cfg c17cfg, lists [][]int) func() {
 		}
 		s.Handler = func(ctx *RequestCtx) {
 			o.handlerCalls++
-			if string(ctx.Path()) == "/plain" {
+			if pth := string(ctx.Path()); strings.HasPrefix(pth, "/plain") {
+				switch pth {
+				case "/plain-noresponse-true":
+					mcrt.Covered("earlier-request-set-noresponse-without-hijack")
+					ctx.HijackSetNoResponse(true)
+				case "/plain-noresponse-false":
+					ctx.HijackSetNoResponse(false)
+				}
 				ctx.SetBodyString("plain")
 				return
 			}
@@ -276,7 +295,27 @@ func c17body(cfg c17cfg, lists [][]int) func() {
 		mcrt.GoNamed("client", func() {
 			defer func() { o.finished++ }()
 			defer wg.Done()
+			if cfg.priorSep {
+				// the earlier request is sent alone and answered before the hijacking request leaves
+				if _, err := cc.Write(o.priorReq); err != nil {
+					o.clientErr = "write: " + err.Error()
+				}
+				buf := make([]byte, 64)
+				for o.clientErr == "" {
+					if _, _, _, ok := c17splitResponses(o.clientGot, 1); ok {
+						break
+					}
+					n, err := cc.Read(buf)
+					o.clientGot = append(o.clientGot, buf[:n]...)
+					if err != nil {
+						o.clientErr = err.Error()
+					}
+				}
+			}
 			for i, w := range o.writes {
+				if o.clientErr != "" {
+					break
+				}
 				if i == 1 && o.late {
 					mcrt.WaitUntil("hijack-handler-started", func() bool { return o.handoffIdx >= 0 })
 				}
@@ -374,6 +413,18 @@ func c17splitResponses(b []byte, n int) (statuses []int, bodies []string, rest [
 	return statuses, bodies, rest, true
 }
 
+func c17priorName(c c17cfg) string {
+	n := []string{"none", "plain", "HijackSetNoResponse(true)-without-Hijack", "HijackSetNoResponse(false)"}[c.prior]
+	if c.prior > 0 {
+		if c.priorSep {
+			n += "/answered-first"
+		} else {
+			n += "/pipelined"
+		}
+	}
+	return n
+}
+
 func c17check(x *mcrt.Exec) (string, string, string) {
 	o, _ := x.UserData.(*c17obs)
 	if o == nil {
@@ -392,7 +443,7 @@ func c17check(x *mcrt.Exec) (string, string, string) {
 		bucket = "part"
 	}
 	cls := fmt.Sprintf("post=%d buffered-at-handoff=%s", len(o.post), bucket)
-	desc := fmt.Sprintf("rmu=%v noResponse=%v keep=%v variant=%d post=%s split=%d rest-held-back=%v", o.cfg.rmu, o.cfg.noResp, o.cfg.keep, o.cfg.variant, q(o.post), o.split, o.late)
+	desc := fmt.Sprintf("rmu=%v noResponse=%v keep=%v variant=%d earlier-request=%s post=%s split=%d rest-held-back=%v", o.cfg.rmu, o.cfg.noResp, o.cfg.keep, o.cfg.variant, c17priorName(o.cfg), q(o.post), o.split, o.late)
 	if o.handoffIdx < 0 {
 		if dead && !o.serveReturned {
 			return cls, "stuck-before-hijack", desc + ": no thread can make progress and ServeConn has not returned"
@@ -401,13 +452,22 @@ func c17check(x *mcrt.Exec) (string, string, string) {
 	}
 	// 1. the response is complete (or absent) when the hijack handler starts
 	wantBodies := []string{}
-	if o.cfg.variant == 2 {
+	if o.cfg.prior > 0 {
 		wantBodies = append(wantBodies, "plain")
 	}
 	if !o.cfg.noResp {
 		wantBodies = append(wantBodies, "hijacking")
 	}
 	st, bodies, rest, ok := c17splitResponses(o.outAtHandoff, o.nResp)
+	if !ok && !o.cfg.noResp {
+		if _, _, r1, ok1 := c17splitResponses(o.outAtHandoff, o.nResp-1); ok1 && len(r1) == 0 {
+			sig := "response-suppressed-without-HijackSetNoResponse"
+			if o.cfg.prior == 2 {
+				sig += "-flag-left-by-earlier-request"
+			}
+			return cls, sig, fmt.Sprintf("%s: the hijacking request did not call HijackSetNoResponse(true), yet when the hijack handler started the server had written only %s (%d response(s), none for the hijacking request)", desc, q(o.outAtHandoff), o.nResp-1)
+		}
+	}
 	if !ok {
 		return cls, "response-not-fully-written-before-hijack-handler", fmt.Sprintf("%s: when the hijack handler started the server had written %s, which is not %d complete response(s)", desc, q(o.outAtHandoff), o.nResp)
 	}
@@ -506,7 +566,8 @@ func c17check(x *mcrt.Exec) (string, string, string) {
 func TestVerif_C17(t *testing.T) {
 	r := vrt.Begin(t, "C17", "model_checking")
 	defer r.End()
-	r.Rule("real Server.ServeConn on one end of fasthttputil.PipeConns, client thread writes a hijacking request (GET / POST with body / behind a pipelined ordinary request / read buffer barely larger than the request) " +
+	r.Rule("real Server.ServeConn on one end of fasthttputil.PipeConns, client thread writes a hijacking request (GET / POST with body / read buffer barely larger than the request), optionally after an earlier ordinary request on the same connection " +
+		"that did {nothing, HijackSetNoResponse(true) without Hijack, HijackSetNoResponse(false)} and was {pipelined in the same write, answered first}, " +
 		"followed by 0-3 chunks of arbitrary bytes (request look-alike, NUL/0xff/CRLFCRLF, single byte), the first `split` bytes in the same write as the request (split in {0,1,mid,end of chunk 1,+1,all}); " +
 		"x ReduceMemoryUsage x HijackSetNoResponse x KeepHijackedConns; every schedule up to the preemption bound for every data case; server-side conn wrapped to log each Read/Write/Close with the calling thread. " +
 		"Oracle: bytes written before the hijack handler's first statement are exactly the complete response(s) (nothing if suppressed); after that no Read/Write by server code; handler reads exactly the bytes sent after the request " +
@@ -515,16 +576,34 @@ func TestVerif_C17(t *testing.T) {
 	r.Assume("mcrt shim semantics (litmus-tested)", "sync.Pool modelled as deterministic LIFO without scheduling points", "arbitrary bytes are represented by a 3-element adversarial palette; the server must not interpret them")
 	b := vrt.Pick(r, 1, 2)
 	var scs []mcx.Scenario
-	for v := 0; v < 4; v++ {
+	type fam struct {
+		name     string
+		variant  int
+		prior    int
+		priorSep bool
+		lists    [][]int
+	}
+	short := [][]int{{}, {0}, {0, 1}, {2, 1, 0}}
+	fams := []fam{
+		{"get", 0, 0, false, c17lists},
+		{"post-body", 1, 0, false, c17lists},
+		{"pipelined-behind-plain", 0, 1, false, c17lists},
+		{"tight-readbuf", 3, 0, false, c17lists},
+		// what the earlier request on the connection did with the hijack settings of its ctx
+		{"after-plain", 0, 1, true, short},
+		{"pipelined-behind-noresponse-true", 0, 2, false, short},
+		{"after-noresponse-true", 0, 2, true, short},
+		{"pipelined-behind-noresponse-false", 0, 3, false, short},
+		{"after-noresponse-false", 0, 3, true, short},
+	}
+	for _, f := range fams {
 		for m := 0; m < 8; m++ {
-			cfg := c17cfg{rmu: m&1 != 0, noResp: m&2 != 0, keep: m&4 != 0, variant: v}
-			lists := c17lists
-			bound := b
-			name := fmt.Sprintf("%s/rmu=%v/noresp=%v/keep=%v", []string{"get", "post-body", "pipelined-behind-plain", "tight-readbuf"}[v], cfg.rmu, cfg.noResp, cfg.keep)
-			if f := os.Getenv("VERIF_SCENARIO"); f != "" && !strings.Contains(name, f) {
+			cfg := c17cfg{rmu: m&1 != 0, noResp: m&2 != 0, keep: m&4 != 0, variant: f.variant, prior: f.prior, priorSep: f.priorSep}
+			name := fmt.Sprintf("%s/rmu=%v/noresp=%v/keep=%v", f.name, cfg.rmu, cfg.noResp, cfg.keep)
+			if flt := os.Getenv("VERIF_SCENARIO"); flt != "" && !strings.Contains(name, flt) {
 				continue
 			}
-			scs = append(scs, mcx.Scenario{Name: name, Cfg: mcrt.Config{Bound: bound, Horizon: 3000}, Body: c17body(cfg, lists), Check: c17check})
+			scs = append(scs, mcx.Scenario{Name: name, Cfg: mcrt.Config{Bound: b, Horizon: 3000}, Body: c17body(cfg, f.lists), Check: c17check})
 		}
 	}
 	r.Set("preemption_bound", fmt.Sprint(b))
